@@ -1106,13 +1106,17 @@ def run(ctx):
                 '(system, kind, coordinate arrays) read from the objects; reflexive/symmetric/transitive; equal => same hash; '
                 'hash never raises; untouched grids keep their snapshot; the mutated grid has the specified new coordinates (each axis '
                 'acted on exactly once); no array owned by the caller ever changes. '
-                'Model: same ops on the Lean store; `show`, `eqrow` compared; hash(g) must equal xxh64 of the model hash input. '
+                'Plus layout cases: a separated / unstructured grid whose coordinate arrays are replaced by NumPy views with the same '
+                'values (negative stride, stride 2 in a longer buffer, offset view) against its twin with fresh arrays: ==, hash, then '
+                'copy / pickle / dict / reversed / reverse / scaled / shift on both. '
+                'Model: same ops on the Lean store; `show`, `eqrow` compared; hash(g) must equal xxh64 of the model hash input '
+                '(also computed through the modelled views, with their C_CONTIGUOUS flags). '
                 'Non-trivial = at least two live grids; distinct by (op sequence, kinds present, number of equal pairs).')
     ctx.assumptions += ['coordinates are finite floats (no NaN/inf)', 'xxhash is deterministic and collision-free on the inputs met',
                         'float arithmetic on the generated dyadic values is exact (checked per case; inexact cases skip the exact hash tie)',
                         'scale on a Cartesian separated grid with an axis of fewer than two points and no stored weights raises IndexError '
                         '(automatic weights undefined) and is treated as outside the quantifier']
-    n = ctx.scale(2500, 13000)
+    n = ctx.scale(2500, 12000)
     cases = [(c, 'directed') for c in DIRECTED + DIRECTED_SHARED + DIRECTED_FLOAT]
     for k in range(n):
         cases.append((gen_case(ctx.rng, big=(ctx.tier == 'thorough' and k % 4 == 0)), 'random'))
@@ -1142,7 +1146,7 @@ def run(ctx):
         nan_plan.append((case, obs, len(all_lines) + first, n))
         all_lines += lines
     layout_plan = []
-    for case in list(DIRECTED_LAYOUT) + [gen_layout_case(ctx.rng) for _ in range(ctx.scale(300, 1500))]:
+    for case in list(DIRECTED_LAYOUT) + [gen_layout_case(ctx.rng) for _ in range(ctx.scale(300, 1000))]:
         obs = run_layout_real(case)
         for key, what in layout_oracle(case, obs):
             ctx.violation(key, what, case)
